@@ -91,7 +91,7 @@ theorem flatVTy_fst : (t : KTy) → (f : Val) → ∀ kvs, flatVTy t f = .ok kvs
   | .struct _ ms, .struct fs, kvs, h => by simp only [flatVTy] at h; simp [flatTy, flatV_fst ms fs kvs h]
   | .struct _ _, .absent, _, h => by simp [flatVTy] at h
   | .struct _ _, .num _, _, h | .struct _ _, .str _, _, h | .struct _ _, .list _, _, h => by simp [flatVTy] at h
-  | .prim _, _, kvs, h | .str, _, kvs, h | .wstr, _, kvs, h | .union _ _, _, kvs, h | .enum _ _ _, _, kvs, h | .seq _, _, kvs, h | .arr _ _, _, kvs, h => by
+  | .prim _, _, kvs, h | .str, _, kvs, h | .wstr, _, kvs, h | .union _ _ _, _, kvs, h | .enum _ _ _, _, kvs, h | .seq _, _, kvs, h | .arr _ _, _, kvs, h => by
     simp [flatVTy] at h; subst h; simp [flatTy]
 end
 
@@ -139,7 +139,7 @@ theorem tyK_erase : (t : Ty) → (tyK t).erase = t
   | .prim _ => rfl
   | .str => rfl
   | .wstr => rfl
-  | .union _ _ => rfl
+  | .union _ _ _ => rfl
   | .enum _ _ _ => rfl
   | .seq el => by simp [tyK, KTy.erase, tyK_erase el]
   | .arr el n => by simp [tyK, KTy.erase, tyK_erase el]
@@ -197,7 +197,7 @@ theorem flatVTy_nonabsent : (t : KTy) → (f : Val) → ∀ kvs, flatVTy t f = .
   | .struct _ ms, .struct fs, kvs, h => by simp only [flatVTy] at h; exact flatV_nonabsent ms fs kvs h
   | .struct _ _, .absent, _, h => by simp [flatVTy] at h
   | .struct _ _, .num _, _, h | .struct _ _, .str _, _, h | .struct _ _, .list _, _, h => by simp [flatVTy] at h
-  | .prim _, _, kvs, h | .str, _, kvs, h | .wstr, _, kvs, h | .union _ _, _, kvs, h | .enum _ _ _, _, kvs, h | .seq _, _, kvs, h | .arr _ _, _, kvs, h => by
+  | .prim _, _, kvs, h | .str, _, kvs, h | .wstr, _, kvs, h | .union _ _ _, _, kvs, h | .enum _ _ _, _, kvs, h | .seq _, _, kvs, h | .arr _ _, _, kvs, h => by
     simp [flatVTy] at h; subst h; simp
 end
 
@@ -249,7 +249,7 @@ theorem fixed_ser (cfg : Cfg) (e : Endian) : (t : Ty) → (v : Val) → wfVal cf
   | .struct .mutable _, _, _, _, _, hp => by simp [fixedSizeTy] at hp
   | .str, _, _, _, _, hp => by simp [fixedSizeTy] at hp
   | .wstr, _, _, _, _, hp => by simp [fixedSizeTy] at hp
-  | .union _ _, _, _, _, _, hp => by simp [fixedSizeTy] at hp
+  | .union _ _ _, _, _, _, _, hp => by simp [fixedSizeTy] at hp
   | .seq _, _, _, _, _, hp => by simp [fixedSizeTy] at hp
   | .prim _, .str _, h, _, _, _ | .prim _, .list _, h, _, _, _ | .prim _, .struct _, h, _, _, _ | .prim _, .absent, h, _, _, _ => by simp [wfVal] at h
   | .enum _ _ _, .str _, h, _, _, _ | .enum _ _ _, .list _, h, _, _, _ | .enum _ _ _, .struct _, h, _, _, _ | .enum _ _ _, .absent, h, _, _, _ => by simp [wfVal] at h
@@ -305,15 +305,16 @@ theorem wf_noPanic (cfg : Cfg) : (t : Ty) → (v : Val) → wfVal cfg .v1 t v = 
     simp only [wfVal, Bool.and_eq_true] at h
     have hx : (Ext.mutable == Ext.mutable) = true := by decide
     simp only [serPanics1, hx]; exact wfM_noPanic cfg ms fs h.2
-  | .union disc bs, .struct fs, h => by
+  | .union app disc bs, .struct fs, h => by
     simp only [wfVal] at h
     split at h
     · rename_i d bid v
       simp only [Bool.and_eq_true] at h
       simp only [serPanics1]
       exact wfB_noPanic cfg bs bid v h.2
+    · simp [serPanics1]
     · simp at h
-  | .union _ _, .num _, _ | .union _ _, .str _, _ | .union _ _, .list _, _ | .union _ _, .absent, _ => by simp [serPanics1]
+  | .union _ _ _, .num _, _ | .union _ _ _, .str _, _ | .union _ _ _, .list _, _ | .union _ _ _, .absent, _ => by simp [serPanics1]
   | .prim _, _, _ | .str, _, _ | .wstr, _, _ | .enum _ _ _, _, _ => by simp [serPanics1]
   | .seq _, .num _, _ | .seq _, .str _, _ | .seq _, .struct _, _ | .seq _, .absent, _ => by simp [serPanics1]
   | .arr _ _, .num _, _ | .arr _ _, .str _, _ | .arr _ _, .struct _, _ | .arr _ _, .absent, _ => by simp [serPanics1]
